@@ -43,3 +43,14 @@ Definition spec_arith (op : arop) (a b : num) : option (res num) :=
       | _, _ => None
       end
   end.
+
+(* modulo: the remainder of truncated division, r = a - b * (a quot b); zero divisor is an error;
+   a float operand is a type error.  None where the property is silent (mixed signed/unsigned). *)
+Definition spec_mod (a b : num) : option (res num) :=
+  match a, b with
+  | NFloat _, _ | _, NFloat _ => Some Err
+  | NInt x, NInt y => if y =? 0 then Some Err else Some (Ok (NInt (x - y * Z.quot x y)))
+  | NUint x, NUint y => if y =? 0 then Some Err else Some (Ok (NUint (x - y * (x / y))))
+  | _, NInt 0 | _, NUint 0 | _, NChar 0 => Some Err
+  | _, _ => None
+  end.
